@@ -107,7 +107,7 @@ func (r *runner) spawn(tag string, shard, nshards, only, from, caseTimeout int, 
 	cmd.Env = append(cmd.Env, "VERIF_WORKDIR="+r.dir, "VERIF_TAG="+tag)
 	if r.label == "race" || strings.HasSuffix(r.bin, ".race") {
 		// never halt on the first report: later reports and the result oracle still count
-		cmd.Env = append(cmd.Env, "GORACE=halt_on_error=0 log_path="+filepath.Join(r.dir, tag+".race"))
+		cmd.Env = append(cmd.Env, "GORACE=halt_on_error=0 exitcode=0 log_path="+filepath.Join(r.dir, tag+".race"))
 	}
 	if err := cmd.Start(); err != nil {
 		fmt.Fprintln(errf, "spawn:", err)
